@@ -56,7 +56,8 @@ TRUSTED = [
 ASSUMPTIONS = ["exact complex arithmetic in the theorems; implementation compared at 1e-7",
                "isometries are orthonormal to 1e-12 (generated by QR / slicing unitaries)"]
 RULE = ("tie: (n, m) schedules, (k, i) index triples, Lemma-2 input pairs, Knill argument lists; oracle: distinct "
-        "(n, m, family, seed, scheme, 1-D flag) on which Operator[:, :2^m] was compared with V; non-trivial = n>=2")
+        "(n, m, family, seed, scheme, 1-D flag) on which Operator[:, :2^m] was compared with V; input-diversity jobs: distinct "
+        "(data family, n, m, element type, memory layout, call form, scheme); non-trivial = n>=2")
 DRIVER = "Drivers/C03.lean"
 
 import framework  # noqa: E402
@@ -178,7 +179,8 @@ def instrumented(rec):
 
     def unitary_(iso, basis=0):
         out = saved["_unitary"](iso, basis)
-        rec.append(("lemma2", complex(iso[0][0]), complex(iso[1][0]), int(basis), np.array(out, dtype=complex)))
+        a, b = (complex(np.asarray(iso[r][0]).reshape(-1)[0]) for r in (0, 1))      # (a np.matrix entry is 1 x 1, not a scalar)
+        rec.append(("lemma2", a, b, int(basis), np.array(out, dtype=complex)))
         return out
 
     def orth_eig(u):
@@ -229,11 +231,12 @@ def probe_indices(n, m, k, i):
     return mc, start, [(start + d, c[0], c[1], c[2]) for d, c in enumerate(calls)], len(gates)
 
 
-def ccd_impl_lines(n, m, seed):
-    """Schedule of the real `_ccd` run on a Haar isometry, in the driver's dump format."""
+def ccd_impl_lines(n, m, seed, arg=None):
+    """Schedule of the real `_ccd` run on a Haar isometry (or on the given input `arg`, any accepted form), in the driver's
+    dump format."""
     import qclib.isometry as qi
     rec = []
-    v = make_isometry("haar", n, m, seed)
+    v = make_isometry("haar", n, m, seed) if arg is None else arg
     with instrumented(rec) as q:
         circ = q.decompose(v, "ccd")
     lines = []
@@ -276,6 +279,28 @@ def ccd_impl_lines(n, m, seed):
 
 def compare(op, impl, model):
     return framework.diff_lines(impl, model, tol=1e-9)
+
+
+def knill_skeleton(circ, rec, n):
+    """(eigenphases handed to the loop, gate skeleton of the returned Knill circuit) in the driver's dump format."""
+    import numpy as np
+    eig = [r for r in rec if r[0] == "eig"][-1]
+    args = [float(x) for x in np.angle(eig[2])]
+    lines, group_open = [], False
+    for inst in circ.data:
+        nm = inst.operation.name
+        ws = " ".join(str(circ.find_bit(qb).index) for qb in inst.qubits)
+        if nm == "x":
+            lines.append(f"x {ws} ;")
+        elif nm in ("mcphase", "mcp", "cp", "p"):
+            lines.append(f"mcp {ws} ; {float(inst.operation.params[0])!r}")
+        else:
+            st = np.asarray(inst.operation.params, dtype=complex)
+            idx = [i for i in range(2 ** n) if st.shape == eig[3][:, i].shape and np.array_equal(st, eig[3][:, i])]
+            tag = idx[0] if idx else "?"
+            lines.append(f"prep {tag} ;" if group_open else f"prep_dg {tag} ;")
+            group_open = not group_open
+    return args, lines
 
 
 def run_tie(ctx):
@@ -325,22 +350,7 @@ def run_tie(ctx):
             ctx.fail(f"decompose-raises:knill:n={n}:m={m}:{fam}", f"qclib raised on a valid isometry: {type(e).__name__}: {e}",
                      replay_dict(("iso", n, m, fam, seed, "knill", False)))
             continue
-        eig = [r for r in rec if r[0] == "eig"][-1]
-        args = [float(x) for x in np.angle(eig[2])]
-        lines, group_open = [], False
-        for inst in circ.data:
-            nm = inst.operation.name
-            ws = " ".join(str(circ.find_bit(qb).index) for qb in inst.qubits)
-            if nm == "x":
-                lines.append(f"x {ws} ;")
-            elif nm in ("mcphase", "mcp", "cp", "p"):
-                lines.append(f"mcp {ws} ; {float(inst.operation.params[0])!r}")
-            else:
-                st = np.asarray(inst.operation.params, dtype=complex)
-                idx = [i for i in range(2 ** n) if st.shape == eig[3][:, i].shape and np.array_equal(st, eig[3][:, i])]
-                tag = idx[0] if idx else "?"
-                lines.append(f"prep {tag} ;" if group_open else f"prep_dg {tag} ;")
-                group_open = not group_open
+        args, lines = knill_skeleton(circ, rec, n)
         ctx.tie({"op": "knill", "n": n, "args": args}, lines, label=f"knill n={n} m={m} {fam}")
         ctx.count(f"knill-skeleton:kept{sum(1 for x in args if abs(x) > 1e-7)}of{len(args)}")
 
@@ -354,64 +364,84 @@ def job_key(job):
     return f"isometry:{scheme}:n={n}:m={m}:{fam}{':1d' if as1d else ''}:{seed & 0xffff:x}"
 
 
+def default_post(n, m, v):
+    """The property's observable: Operator(circuit)[:, :2^m] versus V (inf when the width is not n)."""
+    def post(circ):
+        import numpy as np
+        from qiskit.quantum_info import Operator
+        if circ.num_qubits != n:
+            return float("inf")
+        return float(np.abs(Operator(circ).data[:, : 2 ** m] - v).max())
+    return post
+
+
+def measure(n, m, v, runner, disable_a2=False, post=None):
+    """Run `runner(qi)` (a call of the REAL decompose) under the add-only instrumentation of qclib.isometry / qclib.unitary,
+    classify an exception (qiskit UCGate kernel or not), evaluate the observable `post(circuit)` and re-check the kernels'
+    specifications on the recorded calls.  Shared by the family jobs (run_job) and the input-diversity jobs (run_div)."""
+    import numpy as np
+    rec, rec2 = [], []
+    res = {}
+    try:
+        with instrumented(rec) as qi, c02.instrumented(rec2, disable_a2):
+            circ = runner(qi)
+    except Exception as e:  # noqa: BLE001
+        import traceback
+        res["raised"] = f"{type(e).__name__}: {e}"
+        res["raised_type"] = type(e).__name__
+        tb = traceback.format_exc()
+        res["tb"] = tb[-800:]
+        # did qiskit's UCGate synthesis fail on exactly-unitary 2x2 inputs?  (kernel defect, classified narrowly)
+        blocks = [r[4] for r in rec if r[0] == "lemma2"]
+        in_unit = max([float(np.abs(b @ b.conj().T - np.eye(2)).max()) for b in blocks] or [0.0])
+        # ... either inside _dec_ucg, or later when circuit.inverse() re-validates a factor that UCGate's synthesis produced
+        # (UnitaryGate.transpose -> "Input matrix is not unitary"): every 2x2 matrix qclib itself hands to qiskit is a
+        # Lemma-2 output (recorded, unitary to in_unit), so a rejected matrix can only be one of qiskit's own factors
+        in_dec = "generalized_gates/uc.py" in tb and "_dec_ucg" in tb
+        in_inv = ("Input matrix is not unitary" in res["raised"] and "generalized_gates/unitary.py" in tb
+                  and ("inverse" in tb or "adjoint" in tb))
+        res["ucg_kernel_raise"] = bool((in_dec or in_inv) and in_unit <= 1e-12)
+        res["raise_site"] = "_dec_ucg" if in_dec else ("inverse" if in_inv else "other")
+        res["lemma2_unitarity"] = in_unit
+        return res, rec, None
+    res["width"] = circ.num_qubits
+    res["err"] = (post or default_post(n, m, v))(circ)
+    schur = ext = l2 = 0.0
+    for r in rec:
+        if r[0] == "eig":
+            _, u, val, vec = r
+            k = len(val)
+            schur = max(schur, float(np.abs(vec.conj().T @ vec - np.eye(k)).max()),
+                        float(np.abs(u @ vec - vec * val).max()), float(np.abs(np.abs(val) - 1).max()))
+        elif r[0] == "extend":
+            _, iso, u = r
+            k = u.shape[0]
+            ext = max(ext, float(np.abs(u.conj().T @ u - np.eye(k)).max()),
+                      float(np.abs(u[:, : iso.shape[1]] - iso).max()))
+        elif r[0] == "lemma2":
+            _, a, b, basis, out = r
+            nrm = math.hypot(abs(a), abs(b))      # no underflow of the squares (amplitudes ~1e-162 are generated)
+            l2 = max(l2, float(np.abs(out @ out.conj().T - np.eye(2)).max()))
+            if nrm > 0:
+                e = np.zeros(2)
+                e[basis] = 1
+                l2 = max(l2, float(np.abs(out @ np.array([a, b]) / nrm - e).max()))
+    res["schur_err"], res["ext_err"], res["lemma2_err"] = schur, ext, l2
+    res["cs_err"], res["eig_err"] = c02.kernel_spec_errors(rec2)
+    res["a2_raised"] = any(r[0] == "a2-raised" for r in rec2)
+    res["n_kernel"] = sum(1 for r in rec if r[0] in ("eig", "extend", "lemma2")) + len(rec2)
+    res["gk_count"] = sum(1 for r in rec if r[0] == "g_k-begin")
+    return res, rec, circ
+
+
 def run_job(job, disable_a2=False):
     sys.setrecursionlimit(10000)
     try:
-        import numpy as np
-        from qiskit.quantum_info import Operator
         _, n, m, fam, seed, scheme, as1d = job
         v = make_isometry(fam, n, m, seed)
         arg = v[:, 0].copy() if as1d else v.copy()
-        rec, rec2 = [], []
-        res = {"job": list(job)}
-        try:
-            with instrumented(rec) as qi, c02.instrumented(rec2, disable_a2):
-                circ = qi.decompose(arg, scheme)
-        except Exception as e:  # noqa: BLE001
-            import traceback
-            res["raised"] = f"{type(e).__name__}: {e}"
-            tb = traceback.format_exc()
-            res["tb"] = tb[-800:]
-            # did qiskit's UCGate synthesis fail on exactly-unitary 2x2 inputs?  (kernel defect, classified narrowly)
-            blocks = [r[4] for r in rec if r[0] == "lemma2"]
-            in_unit = max([float(np.abs(b @ b.conj().T - np.eye(2)).max()) for b in blocks] or [0.0])
-            # ... either inside _dec_ucg, or later when circuit.inverse() re-validates a factor that UCGate's synthesis produced
-            # (UnitaryGate.transpose -> "Input matrix is not unitary"): every 2x2 matrix qclib itself hands to qiskit is a
-            # Lemma-2 output (recorded, unitary to in_unit), so a rejected matrix can only be one of qiskit's own factors
-            in_dec = "generalized_gates/uc.py" in tb and "_dec_ucg" in tb
-            in_inv = ("Input matrix is not unitary" in res["raised"] and "generalized_gates/unitary.py" in tb
-                      and ("inverse" in tb or "adjoint" in tb))
-            res["ucg_kernel_raise"] = bool((in_dec or in_inv) and in_unit <= 1e-12)
-            res["raise_site"] = "_dec_ucg" if in_dec else ("inverse" if in_inv else "other")
-            res["lemma2_unitarity"] = in_unit
-            return res
-        res["width"] = circ.num_qubits
-        op = Operator(circ).data
-        res["err"] = float(np.abs(op[:, : 2 ** m] - v).max()) if circ.num_qubits == n else float("inf")
-        schur = ext = l2 = 0.0
-        for r in rec:
-            if r[0] == "eig":
-                _, u, val, vec = r
-                k = len(val)
-                schur = max(schur, float(np.abs(vec.conj().T @ vec - np.eye(k)).max()),
-                            float(np.abs(u @ vec - vec * val).max()), float(np.abs(np.abs(val) - 1).max()))
-            elif r[0] == "extend":
-                _, iso, u = r
-                k = u.shape[0]
-                ext = max(ext, float(np.abs(u.conj().T @ u - np.eye(k)).max()),
-                          float(np.abs(u[:, : iso.shape[1]] - iso).max()))
-            elif r[0] == "lemma2":
-                _, a, b, basis, out = r
-                nrm = math.hypot(abs(a), abs(b))      # no underflow of the squares (amplitudes ~1e-162 are generated)
-                l2 = max(l2, float(np.abs(out @ out.conj().T - np.eye(2)).max()))
-                if nrm > 0:
-                    e = np.zeros(2)
-                    e[basis] = 1
-                    l2 = max(l2, float(np.abs(out @ np.array([a, b]) / nrm - e).max()))
-        res["schur_err"], res["ext_err"], res["lemma2_err"] = schur, ext, l2
-        res["cs_err"], res["eig_err"] = c02.kernel_spec_errors(rec2)
-        res["a2_raised"] = any(r[0] == "a2-raised" for r in rec2)
-        res["n_kernel"] = sum(1 for r in rec if r[0] in ("eig", "extend", "lemma2")) + len(rec2)
+        res, _, _ = measure(n, m, v, lambda qi: qi.decompose(arg, scheme), disable_a2)
+        res["job"] = list(job)
         return res
     except Exception:  # noqa: BLE001
         import traceback
@@ -419,7 +449,13 @@ def run_job(job, disable_a2=False):
 
 
 def job_weight(job):
+    if job[0] == "div":
+        return 4 ** job[1]["n"] * {"ccd": 6, "knill": 3, "csd": 1}[job[1]["scheme"]]
     return 4 ** job[1] * {"ccd": 6, "knill": 3, "csd": 1}[job[5]]
+
+
+def run_any(job):
+    return run_div(job) if job[0] == "div" else run_job(job)
 
 
 def run_jobs(jobs):
@@ -429,12 +465,12 @@ def run_jobs(jobs):
     from concurrent.futures import ProcessPoolExecutor
     workers = max(1, min(14, (os.cpu_count() or 2) - 1, len(jobs)))
     if workers == 1 or len(jobs) < 4:
-        return [run_job(j) for j in jobs]
+        return [run_any(j) for j in jobs]
     for k in ("OMP_NUM_THREADS", "OPENBLAS_NUM_THREADS", "RAYON_NUM_THREADS", "MKL_NUM_THREADS"):
         os.environ[k] = "1"
     order = sorted(range(len(jobs)), key=lambda i: -job_weight(jobs[i]))
     with ProcessPoolExecutor(max_workers=workers, mp_context=mp.get_context("spawn")) as ex:
-        res = list(ex.map(run_job, [jobs[i] for i in order], chunksize=1))
+        res = list(ex.map(run_any, [jobs[i] for i in order], chunksize=1))
     out = [None] * len(jobs)
     for i, r in zip(order, res):
         out[i] = r
@@ -454,60 +490,77 @@ def replay_dict(job, extra=None):
 
 def judge(ctx, job, res):
     _, n, m, fam, seed, scheme, as1d = job
-    key = job_key(job)
     if res is None or "harness_exc" in res:
         raise RuntimeError("harness exception in oracle job %r: %s" % (job, (res or {}).get("harness_exc")))
+    judge_core(ctx, n, m, fam, scheme, as1d, job_key(job), res, lambda: run_job(job, disable_a2=True),
+               lambda extra=None: replay_dict(job, extra))
+
+
+def judge_core(ctx, n, m, fam, scheme, as1d, key, res, rerun_no_a2, rep, tol=TOL, rerun_no_merge=None, sample=None,
+               spec_tol=1e-8):
+    """Classification of one evaluated decompose() call - the same for the family jobs and the input-diversity jobs:
+    qiskit-UCGate kernel raise / other raise / kernel specifications / width / A.2 precision (re-run with the pass disabled) /
+    np.allclose merge of UCGate._simplify (probe family, or - diversity jobs - re-run with the merge disabled) / plain error.
+    `rep(extra)` builds the replay payload, `tol` is the operator tolerance (1e-7; 1e-5 for inexact float32 / complex64 inputs, whose kernel
+    specifications are re-checked at `spec_tol` = 1e-5 too: the value handed in is orthonormal to ~1e-7 only)."""
     ctx.count(f"oracle:{scheme}")
     if "raised" in res and res.get("ucg_kernel_raise"):
         site = ("(_dec_ucg) raised" if res.get("raise_site") != "inverse" else
                 "produced a factor that qiskit's own UnitaryGate rejects when the circuit is inverted,")
         ctx.fail(f"decompose-ucgate-kernel-raises:{scheme}:n={n}:m={m}:{fam}{':1d' if as1d else ''}",
                  f"qiskit's UCGate synthesis {site} on 2x2 blocks that are unitary to "
-                 f"{res['lemma2_unitarity']:.1e}: " + res["raised"], replay_dict(job, {"traceback": res.get("tb")}))
+                 f"{res['lemma2_unitarity']:.1e}: " + res["raised"], rep({"traceback": res.get("tb")}))
         return
     if "raised" in res and fam == "subnormal_pair":
         ctx.fail(f"decompose-subnormal-pair:{scheme}:n={n}:m={m}", "qclib raised on a valid state vector with a pair of amplitudes "
                  "(4e-162, 2e-162) whose squares are subnormal (Lemma 2 normalises by a norm that is off by several percent): "
-                 + res["raised"], replay_dict(job, {"traceback": res.get("tb")}))
+                 + res["raised"], rep({"traceback": res.get("tb")}))
         return
     if "raised" in res:
         ctx.fail(f"decompose-raises:{scheme}:n={n}:m={m}:{fam}{':1d' if as1d else ''}",
-                 "qclib raised on a valid isometry: " + res["raised"], replay_dict(job, {"traceback": res.get("tb")}))
+                 "qclib raised on a valid isometry: " + res["raised"], rep({"traceback": res.get("tb")}))
         return
     ctx.assumption_checks += res["n_kernel"]
-    if res["schur_err"] > 1e-8:
+    if res["schur_err"] > spec_tol:
         ctx.fail(f"assumption:schur-orthonormal:n={n}:m={m}:{fam}",
                  f"_orthonormal_eig: eigenvectors not orthonormal / not eigenvectors / |lambda| != 1 by {res['schur_err']:.2e} "
-                 "(the hypothesis of C03_knill)", replay_dict(job), kind="assumption")
-    if res["ext_err"] > 1e-8:
+                 "(the hypothesis of C03_knill)", rep(), kind="assumption")
+    if res["ext_err"] > spec_tol:
         ctx.fail(f"assumption:extend-unitary:n={n}:m={m}:{fam}",
                  f"_extend_to_unitary: [V | conj(null(V^T))] not unitary or does not start with V, by {res['ext_err']:.2e}",
-                 replay_dict(job), kind="assumption")
-    if res["lemma2_err"] > 1e-8:
+                 rep(), kind="assumption")
+    if res["lemma2_err"] > spec_tol:
         ctx.fail(f"assumption:lemma2:n={n}:m={m}:{fam}", f"_unitary not unitary / does not map to e_basis by {res['lemma2_err']:.2e}",
-                 replay_dict(job), kind="assumption")
-    if res["cs_err"] > 1e-8 or res["eig_err"] > 1e-6:
+                 rep(), kind="assumption")
+    if res["cs_err"] > spec_tol or res["eig_err"] > max(1e-6, spec_tol):
         ctx.fail(f"assumption:unitary-kernels:n={n}:m={m}:{fam}", f"cossin {res['cs_err']:.2e} demux {res['eig_err']:.2e}",
-                 replay_dict(job), kind="assumption")
+                 rep(), kind="assumption")
     if res["a2_raised"]:
         ctx.count("a2-fallback-taken")
     if res["width"] != n:
-        ctx.fail(f"isometry-width:{scheme}:n={n}:m={m}", f"circuit has {res['width']} qubits", replay_dict(job))
-    elif res["err"] > TOL and res["err"] <= 1e-4 and run_job(job, disable_a2=True).get("err", 1.0) <= TOL:
+        ctx.fail(f"isometry-width:{scheme}:n={n}:m={m}", f"circuit has {res['width']} qubits", rep())
+    elif res["err"] > tol and res["err"] <= 1e-4 and rerun_no_a2().get("err", 1.0) <= tol:
         defer_fail(ctx, f"isometry-a2-precision:{scheme}:n={n}:m={m}:{fam}",
                  f"precision loss caused by qiskit's A.2 two-qubit re-synthesis inside qclib.unitary.unitary(apply_a2=True): "
-                 f"max |Operator[:, :2^m] - V| = {res['err']:.3e}; <= 1e-7 with the pass disabled",
-                 replay_dict(job, {"observed_err": res["err"]}))
-    elif res["err"] > TOL and fam == ALLCLOSE_PROBE_FAMILY and scheme == "ccd" and res["err"] <= 1e-5:
+                 f"max |Operator[:, :2^m] - V| = {res['err']:.3e}; <= {tol:g} with the pass disabled",
+                 rep({"observed_err": res["err"]}))
+    elif res["err"] > tol and fam == ALLCLOSE_PROBE_FAMILY and scheme == "ccd" and res["err"] <= 1e-5:
         ctx.count("allclose-merge")
         ctx.fail(f"isometry-allclose-merge:{scheme}:n={n}:m={m}:delta=3e-6",
                  f"max |Operator(circuit)[:, :2^m] - V| = {res['err']:.3e}: two sibling multiplexer blocks 3e-6 apart are merged by "
                  "np.allclose (rtol 1e-5) in qiskit's UCGate._simplify; 3e-5 apart (family allclose@3e-05) the result is exact",
-                 replay_dict(job, {"observed_err": res["err"]}))
-    elif res["err"] > TOL:
-        ctx.fail(key, f"max |Operator(circuit)[:, :2^m] - V| = {res['err']:.3e}", replay_dict(job, {"observed_err": res["err"]}))
+                 rep({"observed_err": res["err"]}))
+    elif (res["err"] > tol and res["err"] <= 1e-4 and scheme == "ccd" and rerun_no_merge is not None
+          and rerun_no_merge().get("err", 1.0) <= tol):
+        ctx.count("allclose-merge")
+        defer_fail(ctx, f"isometry-allclose-merge:{scheme}:n={n}:m={m}:{fam}",
+                   f"max |Operator(circuit)[:, :2^m] - V| = {res['err']:.3e}: sibling multiplexer blocks within np.allclose (rtol 1e-5) "
+                   f"of each other are merged by qiskit's UCGate._simplify; <= {tol:g} with the merge disabled",
+                   rep({"observed_err": res["err"]}))
+    elif res["err"] > tol:
+        ctx.fail(key, f"max |Operator(circuit)[:, :2^m] - V| = {res['err']:.3e}", rep({"observed_err": res["err"]}))
     else:
-        ctx.ok(key, nontrivial=n >= 2, sample={"n": n, "m": m, "family": fam, "scheme": scheme, "err": res["err"]})
+        ctx.ok(key, nontrivial=n >= 2, sample=sample or {"n": n, "m": m, "family": fam, "scheme": scheme, "err": res["err"]})
 
 
 def oracle_jobs(ctx, nmax, reps):
@@ -687,15 +740,670 @@ def probe_call_forms(ctx):
                      "docstring says 'isometry (list)'): a nested list raises AttributeError - treated as outside the domain")
 
 
+# ---------------------------------------------------------------------------------------------------
+# input-diversity pass: the FORM of otherwise ordinary inputs (element type / memory layout / scale / phase / call form / size)
+# ---------------------------------------------------------------------------------------------------
+#
+# One public entry point: decompose(isometry, scheme='ccd'), scheme in {ccd, csd, knill} (cnot_count: property C10).
+# Every job below is ("div", spec) with a JSON-able spec {name, n, m, seed, etype, layout, call, scheme, V}; run_div() rebuilds
+# the input from V + the tags (div_arg), calls the REAL decompose in the form `call` (div_runner), evaluates the property's
+# observable (k-th basis state of the m low-order qubits -> k-th column, exactly incl. phase) through measure(), and
+# judge_div() classifies through judge_core() - the SAME classification as the family jobs (qiskit-UCGate kernel raise ->
+# decompose-ucgate-kernel-raises:*, A.2 precision -> isometry-a2-precision:*, np.allclose merge -> isometry-allclose-merge:*).
+#
+#   form (family of /tmp/diversity_prompt.txt)                         x scheme        -> where generated
+#   1 int64 / float64 / complex128-zero-imag / negative zeros          ccd csd knill     diversity_jobs: E1 (pm1_monomial, basis@k,
+#     (ints: basis states, identity / permutation columns, +-1 diag)                      id_cols; every shape n<=3, (4,1), (4,3))
+#   1 float64 REAL dtype: real orthogonal, H(x)H +-0.5, -H, real        ccd csd knill     E2 (real_haar, hadamard_pm_half,
+#     rotations, all-negative real state (in-place sweep on a copy)                       neg_hadamard, real_rot, real_neg_state)
+#   1 float32 / complex64: exactly representable (tol 1e-7, must not    ccd csd knill     E1/E2 (pm1/pmi monomials, +-0.5) exact;
+#     raise) and inexact (documented ValueError or correct to 1e-5)                       E3 (haar c64, real_haar f32) inexact
+#   1 Python list / tuple / list of numpy scalars / nested ints /       ccd csd knill     E1, E4: NOT accepted by the unchanged code
+#     Python complex; np.matrix; (1, 2^n) row vector                                      (`isometry.astype`): counted unsupported-
+#                                                                                         form-raises-*; evaluated if a circuit comes back
+#   2 heavy head + light tail (start / end / mixed, 1e-3 .. 1e-6),      ccd csd knill     S (light_tail@*, equal_moduli*, repeated_
+#     equal moduli, repeated values, single amplitude 1 (also LAST),                      values, single_one@*, sparse_pairs,
+#     sparse, one sub-tree only, disjoint supports, repeated eigenvalues                  upper/lower_half_zero, disjoint_support,
+#                                                                                         repeated_eig@*)
+#   3 all-negative real, purely imaginary, global phase -1 / i / -i,    ccd csd knill     P (real_neg_state, pure_imag, gphase@*,
+#     per-entry phases +-1 +-i, first entry negative real, -0.0                           entry_phases, first_neg, *-negzero etypes)
+#   4 scheme positional / keyword / default; 1-D vs (2^n, 1); twice;    ccd csd knill     C (call = pos kw default twice inverse host-*;
+#     .inverse(); to_gate / to_instruction / compose on a permuted                        layout = C F T-view slice-view offset-view
+#     non-contiguous qubit list of a larger host (ints / Qubit objects);                  readonly 1d 1d-strided 1d-readonly col)
+#     C / Fortran / transposed view / slice view / read-only memory;
+#     caller's array (and the base of a view) bit-identical afterwards
+#   5 n = 1 (2x1, 2x2), n = 2 (4x1, 4x2, 4x4) for every scheme and      ccd csd (knill    every block runs over SHAPES; Z: every data
+#     form; n = 3, m = 0..3; n = 4, m in {1, 3} once per data family    from n = 2)       family once at (4,1) / (4,3)
+# Tie (diversity_tie): the Lean driver models the (n, m) schedule, Lemma 2 and Knill's retained-eigenvalue skeleton; the
+# converted inputs (int / real dtype, views, sparse, repeated eigenvalues) go through the existing builders (`ccd`, `lemma2`,
+# `knill` ops).  Element type, memory layout, call form and host placement are outside the model: oracle only.
+# Thresholds kept clear: light tails >= 1e-6 (UCGate._simplify merges blocks within rtol 1e-5 - heavy amplitudes are placed so
+# that no two sibling 2x2 blocks are near-equal; a case that hits the merge anyway is classified by re-running with the merge
+# disabled), `iso_norm != 0.0` is exact (zeros generated are exact zeros), Knill's 1e-7 eigenphase cut: a skipped phase < 1e-7
+# costs < 1e-7.
+
+DIV_SHAPES = [(1, 0), (1, 1), (2, 0), (2, 1), (2, 2), (3, 0), (3, 1), (3, 2), (3, 3)]
+DIV_SHAPES4 = [(4, 1), (4, 3)]
+DIV_LIST_ETYPES = ("pylist", "pylist-int", "pylist-float", "pytuple", "list-npscalars")
+DIV_REDUCED = ("f32", "c64")
+
+
+def div_data(name, n, m, seed):
+    """complex128 reference isometry (2^n x 2^m) of the data family `name`."""
+    import numpy as np
+    rng = np.random.default_rng([int(seed) & 0xffffffff, n, m, 0xd1f])
+    dim, cols = 2 ** n, 2 ** m
+    base, _, par = name.partition("@")
+
+    def complete(first, real=False):
+        """isometry whose first column is exactly `first`, the others generic (QR completion)."""
+        first = np.asarray(first, dtype=float if real else complex)
+        first = first / np.linalg.norm(first)
+        if cols == 1:
+            return first.reshape(-1, 1).astype(complex)
+        g = rng.standard_normal((dim, cols - 1))
+        if not real:
+            g = g + 1j * rng.standard_normal((dim, cols - 1))
+        q, r = np.linalg.qr(np.concatenate([first.reshape(-1, 1), g], axis=1))
+        d = np.diagonal(r)
+        q = q * (d / np.abs(d))
+        q[:, 0] = first
+        return q.astype(complex)
+
+    def hadamard(k):
+        h = np.array([[1.0, 1.0], [1.0, -1.0]])
+        out = np.ones((1, 1))
+        for _ in range(k):
+            out = np.kron(out, h)
+        return out
+
+    def id_cols():
+        return np.eye(dim, dtype=complex)[:, rng.permutation(dim)[:cols]]
+
+    def pick(values, size, need):
+        """random choice from `values` in which at least one entry lies in `need`."""
+        out = rng.choice(np.array(values), size)
+        if not any(x in need for x in out):
+            out[int(rng.integers(size))] = need[0]
+        return out
+
+    if base == "basis":
+        k = {"0": 0, "1": 1, "last": dim - 1, "mid": dim // 2}[par]
+        v = np.zeros((dim, 1), dtype=complex)
+        v[k, 0] = 1
+        return v
+    if base == "id_cols":
+        return id_cols()
+    if base == "pm1_monomial":
+        return id_cols() * pick([1, -1], cols, [-1])
+    if base == "pmi_monomial":
+        return id_cols() * pick([1, -1, 1j, -1j], cols, [1j, -1j])
+    if base == "phase_monomial":
+        return id_cols() * np.exp(1j * rng.uniform(0.3, 6.0, cols))
+    if base in ("hadamard_pm_half", "neg_hadamard"):
+        if base == "neg_hadamard":
+            u = -hadamard(n) / math.sqrt(dim)
+        elif n % 2 == 0:
+            u = hadamard(n) / 2 ** (n // 2)                     # entries +-0.5, +-0.25: exact in float32
+        elif rng.integers(2):
+            u = np.kron(hadamard(n - 1) / 2 ** (n // 2), np.eye(2))
+        else:
+            u = np.kron(np.eye(2), hadamard(n - 1) / 2 ** (n // 2))
+        return u[:, :cols].astype(complex)
+    if base == "real_rot":
+        u = np.ones((1, 1))
+        for _ in range(n):
+            c, s_ = [(0.6, 0.8), (0.8, -0.6), (-0.6, 0.8), (0.0, 1.0), (-0.8, -0.6)][int(rng.integers(5))]
+            u = np.kron(u, np.array([[c, -s_], [s_, c]]))
+        return u[:, :cols].astype(complex)
+    if base == "real_haar":
+        return c02.haar_real(rng, dim)[:, :cols].astype(complex)
+    if base == "haar":
+        return c02.haar(rng, dim)[:, :cols]
+    if base == "real_neg_state":
+        return complete(-rng.uniform(0.2, 1.0, dim), real=True)
+    if base in ("light_tail", "light_tail_real"):
+        pos, eps = par.split("@")
+        eps = float(eps)
+        real = base == "light_tail_real"
+        tail = rng.uniform(1.0, 3.0, dim) * (rng.choice([-1.0, 1.0], dim) if real else np.exp(1j * rng.uniform(0, 2 * np.pi, dim)))
+        first = eps * tail
+        heavy = {"start": [0, 1], "end": [dim - 2, dim - 1], "mixed": [0, dim - 1]}[pos] if dim > 2 else \
+            {"start": [0], "end": [1], "mixed": [0]}[pos]
+        amp = [0.6, -0.8] if real else [0.6 * np.exp(0.7j), 0.8 * np.exp(-2.1j)]
+        for j, a in zip(heavy, amp):
+            first[j] = a
+        return complete(first, real=real)
+    if base == "equal_moduli":
+        return complete(np.exp(1j * rng.uniform(0, 2 * np.pi, dim)))
+    if base == "equal_moduli_pm1i":
+        p, q = pick([1, -1, 1j, -1j], dim, [1j, -1j]), pick([1, -1, 1j, -1j], dim, [-1])
+        return ((p.reshape(-1, 1) * hadamard(n) * q.reshape(1, -1)) / math.sqrt(dim))[:, :cols]
+    if base == "repeated_values":
+        a, b = 0.6 * np.exp(0.4j), -0.35 + 0.2j
+        pat = [a, a, b, b] if rng.integers(2) else [a, b, a, b]
+        return complete(np.array([pat[j % 4] for j in range(dim)]))
+    if base == "single_one":
+        k = {"0": 0, "last": dim - 1, "mid": dim // 2}[par]
+        if cols == 1:
+            v = np.zeros((dim, 1), dtype=complex)
+            v[k, 0] = np.exp(1j * rng.uniform(0.3, 6.0))
+            return v
+        perm = [k] + [r for r in rng.permutation(dim) if r != k]
+        return np.eye(dim, dtype=complex)[:, perm[:cols]] * np.exp(1j * rng.uniform(0.3, 6.0, cols))
+    if base == "sparse_pairs":
+        # direct sum of 2x2 Haar blocks with permuted rows: every column has two non-zeros, supports pairwise disjoint or equal
+        if n == 1:
+            return c02.haar(rng, 2)[:, :cols]
+        u = np.zeros((dim, dim), dtype=complex)
+        for j in range(dim // 2):
+            u[2 * j: 2 * j + 2, 2 * j: 2 * j + 2] = c02.haar(rng, 2)
+        order = list(range(0, dim, 2)) + list(range(1, dim, 2)) if m < n else list(range(dim))
+        return u[rng.permutation(dim)][:, order[:cols]]
+    if base in ("upper_half_zero", "lower_half_zero"):
+        h = dim // 2
+        v = np.zeros((dim, cols), dtype=complex)
+        if m < n:
+            lo, hi = (h, dim) if base == "upper_half_zero" else (0, h)
+            v[lo:hi, :] = c02.haar(rng, h)[:, :cols]
+            return v
+        a, b = c02.haar(rng, h), c02.haar(rng, h)
+        if base == "upper_half_zero":              # each column lives in one half: anti-block-diagonal / block-diagonal
+            v[h:, :h], v[:h, h:] = a, b
+        else:
+            v[:h, :h], v[h:, h:] = a, b
+        return v
+    if base == "disjoint_support":
+        sigma = rng.permutation(cols)
+        v = np.zeros((dim, cols), dtype=complex)
+        for c in range(cols):
+            rows = [r for r in range(dim) if r % cols == sigma[c]]
+            x = rng.standard_normal(len(rows)) + 1j * rng.standard_normal(len(rows))
+            v[rows, c] = x / np.linalg.norm(x)
+        return v
+    if base == "repeated_eig":
+        w = c02.haar(rng, dim)
+        al, be = rng.uniform(0.5, 2.5), -rng.uniform(0.5, 2.5)
+        lam = {"pairs": [np.exp(1j * al)] * (dim // 2) + [np.exp(1j * be)] * (dim - dim // 2),
+               "ones": [1.0] * (dim // 2) + [-1.0] * (dim - dim // 2),
+               "all_same": [np.exp(1j * al)] * dim}[par]
+        return ((w * np.array(lam)) @ w.conj().T)[:, :cols]
+    if base == "pure_imag":
+        return 1j * c02.haar_real(rng, dim)[:, :cols]
+    if base == "gphase":
+        ph, inner = par.split("@")
+        return {"-1": -1.0, "i": 1j, "-i": -1j}[ph] * div_data(inner, n, m, seed)
+    if base == "entry_phases":
+        p = pick([1, -1, 1j, -1j], dim, [1j, -1j])
+        return p.reshape(-1, 1) * c02.haar_real(rng, dim)[:, :cols]
+    if base == "first_neg":
+        v = c02.haar(rng, dim)[:, :cols]
+        v = v * (-np.conj(v[0, 0]) / abs(v[0, 0]))
+        v[0, 0] = -abs(v[0, 0])
+        return v
+    raise ValueError(name)
+
+
+def div_castable(v, etype):
+    """Is the reference `v` a valid value of the element type?"""
+    import numpy as np
+    if etype in ("f64", "f64-negzero", "f32", "pylist-float"):
+        return bool(np.all(v.imag == 0))
+    if etype in ("i64", "pylist-int"):
+        return bool(np.all(v.imag == 0) and np.all(v.real == np.rint(v.real)))
+    return True
+
+
+def div_arg(v, etype, layout):
+    """(argument handed to decompose, array whose bytes must be unchanged afterwards or None, complex128 reference of what
+    was handed in)."""
+    import numpy as np
+    v = np.array(v, dtype=complex)
+    one_d = layout.startswith("1d")
+    x = v[:, 0] if one_d else (v.T if layout == "row" else v)
+
+    def negzero(a):
+        a = a.copy()
+        if np.iscomplexobj(a):
+            re, im = a.real.copy(), a.imag.copy()
+            re[re == 0] = -0.0
+            im[im == 0] = -0.0
+            out = np.empty_like(a)
+            out.real, out.imag = re, im          # (re + 1j * im would turn the negative zeros positive again)
+            return out
+        a[a == 0] = -0.0
+        return a
+
+    if etype in DIV_LIST_ETYPES:
+        if etype == "pylist":
+            arg = [complex(z) for z in x] if one_d else [[complex(z) for z in row] for row in x]
+        elif etype == "pylist-int":
+            arg = [int(round(z.real)) for z in x] if one_d else [[int(round(z.real)) for z in row] for row in x]
+        elif etype == "pylist-float":
+            arg = [float(z.real) for z in x] if one_d else [[float(z.real) for z in row] for row in x]
+        elif etype == "pytuple":
+            arg = tuple(complex(z) for z in x) if one_d else tuple(tuple(complex(z) for z in row) for row in x)
+        else:
+            arg = [np.complex128(z) for z in x] if one_d else [[np.complex128(z) for z in row] for row in x]
+        return arg, None, v
+    a = {"c128": lambda: x.astype(np.complex128), "c128-negzero": lambda: negzero(x.astype(np.complex128)),
+         "f64": lambda: x.real.astype(np.float64), "f64-negzero": lambda: negzero(x.real.astype(np.float64)),
+         "i64": lambda: np.rint(x.real).astype(np.int64), "f32": lambda: x.real.astype(np.float32),
+         "c64": lambda: x.astype(np.complex64), "matrix": lambda: x.astype(np.complex128)}[etype]()
+    a = np.ascontiguousarray(a)
+    base = None
+    if etype == "matrix":
+        import warnings
+        with warnings.catch_warnings():
+            warnings.simplefilter("ignore")
+            arg = np.matrix(a)
+    elif layout in ("C", "col", "row", "1d"):
+        arg = a
+    elif layout == "F":
+        arg = np.asfortranarray(a)
+    elif layout == "T-view":
+        arg = np.ascontiguousarray(a.T).T
+    elif layout == "slice-view":
+        base = np.full((2 * a.shape[0], 2 * a.shape[1] + 1), 7, dtype=a.dtype)
+        base[::2, 1::2] = a
+        arg = base[::2, 1::2]
+    elif layout == "offset-view":
+        base = np.full((a.shape[0] + 3, a.shape[1] + 2), 7, dtype=a.dtype)
+        base[2: 2 + a.shape[0], 1: 1 + a.shape[1]] = a
+        arg = base[2: 2 + a.shape[0], 1: 1 + a.shape[1]]
+    elif layout == "1d-strided":
+        base = np.full(3 * a.shape[0] + 1, 7, dtype=a.dtype)
+        base[1::3] = a
+        arg = base[1::3]
+    elif layout in ("readonly", "1d-readonly"):
+        arg = a
+        arg.flags.writeable = False
+    else:
+        raise ValueError(layout)
+    ref = np.asarray(arg).astype(complex)
+    ref = ref.reshape(-1, 1) if one_d else (ref.T if layout == "row" else ref)
+    return arg, (base if base is not None else arg), np.array(ref)
+
+
+def div_host(n, m, v, spec):
+    """Host circuit builder + observable for the host call forms: the returned circuit placed on a permuted, non-ascending,
+    non-contiguous qubit list of a larger host built from two registers; on the listed qubits IN THE LISTED ORDER the host maps
+    |k> (m low listed qubits, the other listed qubits 0) to column k, for EVERY basis state of the idle qubits (untouched)."""
+    import numpy as np
+    import random
+    from qiskit import QuantumCircuit, QuantumRegister
+    from qiskit.quantum_info import Operator
+    r = random.Random(spec["seed"] ^ 0x77)
+    h = n + 2
+    qubits = r.sample(range(h), n)
+    while (n >= 2 and (qubits == sorted(qubits) or max(qubits) - min(qubits) == n - 1)) or (n == 1 and qubits == [0]):
+        qubits = r.sample(range(h), n)          # permuted, non-ascending, non-contiguous
+    call = spec["call"]
+
+    def place(circ):
+        ra, rb = QuantumRegister(h - 2, "a"), QuantumRegister(2, "b")
+        host = QuantumCircuit(rb, ra) if r.random() < 0.5 else QuantumCircuit(ra, rb)
+        if call == "host-to_gate-int":
+            host.append(circ.to_gate(), qubits)
+        elif call == "host-to_instruction-qubitobj":
+            host.append(circ.to_instruction(), [host.qubits[q] for q in qubits])
+        else:
+            host.compose(circ, qubits=[host.qubits[q] for q in qubits], inplace=True)
+        return host
+
+    def post(circ):
+        if circ.num_qubits != n:
+            return float("inf")
+        err = float(np.abs(Operator(circ).data[:, : 2 ** m] - v).max())
+        op = Operator(place(circ)).data
+        idle = [q for q in range(h) if q not in qubits]
+        for b in range(2 ** len(idle)):
+            off = sum(((b >> j) & 1) << q for j, q in enumerate(idle))
+            idx = [off + sum(((x >> j) & 1) << q for j, q in enumerate(qubits)) for x in range(2 ** n)]
+            exp = np.zeros((2 ** h, 2 ** m), dtype=complex)
+            exp[idx, :] = v
+            err = max(err, float(np.abs(op[:, idx[: 2 ** m]] - exp).max()))
+        return err
+    return post, qubits
+
+
+def run_div(job, disable_a2=False, no_merge=False):
+    sys.setrecursionlimit(10000)
+    spec = job[1]
+    try:
+        import numpy as np
+        from qiskit.quantum_info import Operator
+        n, m, scheme, call = spec["n"], spec["m"], spec["scheme"], spec["call"]
+        if spec.get("V") is not None:
+            v = np.array([[complex(z[0], z[1]) for z in row] for row in spec["V"]], dtype=complex)
+        else:
+            v = div_data(spec["name"], n, m, spec["seed"])
+        arg, watched, ref = div_arg(v, spec["etype"], spec["layout"])
+        before = None if watched is None else (watched.dtype.str, watched.shape, watched.tobytes())
+        circs = []
+
+        def runner(qi):
+            if call == "kw":
+                c = qi.decompose(isometry=arg, scheme=scheme)
+            elif call == "default":
+                c = qi.decompose(arg)
+            elif call == "default-kw":
+                c = qi.decompose(isometry=arg)
+            else:
+                c = qi.decompose(arg, scheme)
+            circs.append(c)
+            if call == "twice":
+                circs.append(qi.decompose(arg, scheme))
+            return c
+
+        fwd = default_post(n, m, ref)
+        if call == "twice":
+            def post(circ):
+                return max(fwd(c) for c in circs)
+        elif call == "inverse":
+            def post(circ):
+                if circ.num_qubits != n:
+                    return float("inf")
+                back = Operator(circ.inverse()).data @ ref
+                return max(fwd(circ), float(np.abs(back - np.eye(2 ** n)[:, : 2 ** m]).max()))
+        elif call.startswith("host-"):
+            post, _ = div_host(n, m, ref, spec)
+        else:
+            post = fwd
+        saved = None
+        if no_merge:     # diagnosis only: UCGate._simplify without the np.allclose repetition search
+            from qiskit.circuit.library import UCGate
+            saved = UCGate._repetition_search
+            UCGate._repetition_search = lambda self, mux, level, mux_copy: (set(), mux_copy)
+        try:
+            res, rec, circ = measure(n, m, ref, runner, disable_a2, post)
+        finally:
+            if saved is not None:
+                UCGate._repetition_search = saved
+        res["job"] = ["div", {k: x for k, x in spec.items() if k != "V"}]
+        res["exact"] = bool(np.array_equal(ref, v))
+        res["ref_dev"] = float(np.abs(ref - v).max())
+        if before is not None:
+            res["mutated"] = (watched.dtype.str, watched.shape, watched.tobytes()) != before
+        return res
+    except Exception:  # noqa: BLE001
+        import traceback
+        return {"harness_exc": traceback.format_exc()[-1500:], "job": ["div", {k: x for k, x in spec.items() if k != "V"}]}
+
+
+def div_fam(spec):
+    return f"div:{spec['name']}:{spec['etype']}:{spec['layout']}:{spec['call']}"
+
+
+def div_replay(job, extra=None):
+    spec = dict(job[1])
+    if spec.get("V") is None:
+        spec["V"] = [[[float(z.real), float(z.imag)] for z in row] for row in div_data(spec["name"], spec["n"], spec["m"], spec["seed"])]
+    d = {"call": "qclib.isometry.decompose", "div": True, "spec": spec, "n": spec["n"], "m": spec["m"], "scheme": spec["scheme"],
+         "how": "V (rows of [re, im]) cast to the element type `etype` in the memory layout `layout` (tools/props/c03.py::div_arg), "
+                "decompose called in the form `call` (run_div); observable: Operator(circuit)[:, :2^m] == V (host forms: on the "
+                "listed qubits of the host, identity on the idle ones; inverse: Operator(circuit.inverse()) V == I[:, :2^m])"}
+    d.update(extra or {})
+    return d
+
+
+def judge_div(ctx, job, res):
+    spec = job[1]
+    if res is None or "harness_exc" in res:
+        raise RuntimeError("harness exception in diversity job %r: %s" % (job, (res or {}).get("harness_exc")))
+    n, m, scheme, etype, layout, call = spec["n"], spec["m"], spec["scheme"], spec["etype"], spec["layout"], spec["call"]
+    fam = div_fam(spec)
+    key = f"isometry-div:{scheme}:n={n}:m={m}:{fam}"
+    rep = lambda extra=None: div_replay(job, extra)  # noqa: E731
+    ctx.count(f"diversity:etype:{etype}")
+    ctx.count(f"diversity:layout:{layout}")
+    ctx.count(f"diversity:call:{call}")
+    ctx.count(f"diversity:data:{spec['name'].split('@')[0]}")
+    ctx.count(f"diversity:shape:n{n}m{m}:{scheme}")
+    unsupported = "python-sequence" if etype in DIV_LIST_ETYPES else ("np.matrix" if etype == "matrix" else
+                                                                    ("row-vector" if layout == "row" else None))
+    if res.get("mutated"):
+        ctx.fail(f"isometry-input-mutated:{scheme}:n={n}:m={m}:{etype}:{layout}",
+                 "decompose() changed the caller's array (or the base array of the view handed in): it must work on a copy", rep())
+        return
+    if "raised" in res and unsupported:
+        clean = {"python-sequence": ("AttributeError", "TypeError"), "np.matrix": ("ValueError", "TypeError"),
+                 "row-vector": ("ValueError",)}[unsupported]
+        if res["raised_type"] in clean:
+            # a form decompose() does not claim to support (annotation np.ndarray; first statement `isometry.astype(complex)`)
+            ctx.count(f"diversity:{unsupported}:unsupported-form-raises-{res['raised_type']}")
+            ctx.ok(key + ":unsupported-form", nontrivial=False)
+            return
+    inexact = etype in DIV_REDUCED and not res.get("exact", True)
+    if "raised" in res and inexact and res["raised_type"] == "ValueError" and not res.get("ucg_kernel_raise"):
+        # the float32 / complex64 value IS a slightly non-orthonormal input: the documented rejection is acceptable
+        ctx.count(f"diversity:reduced-precision:{etype}:rejected-ValueError")
+        ctx.ok(key + ":rejected", nontrivial=False)
+        return
+    if "raised" not in res and call in ("default", "default-kw") and res.get("gk_count") != 2 ** m:
+        ctx.fail(key + ":scheme", "decompose(V) without `scheme` did not run the column-by-column sweep (documented default 'ccd')",
+                 rep())
+        return
+    if inexact:
+        ctx.count(f"diversity:reduced-precision:{etype}:evaluated-at-1e-5")
+    judge_core(ctx, n, m, fam, scheme, False, key, res, lambda: run_div(job, disable_a2=True), rep,
+               tol=1e-5 if inexact else TOL, spec_tol=1e-5 if inexact else 1e-8, rerun_no_merge=lambda: run_div(job, no_merge=True),
+               sample={"n": n, "m": m, "family": fam, "scheme": scheme, "err": res.get("err")})
+
+
+def diversity_jobs(ctx):
+    """The input-diversity job list (see the table above); deterministic from ctx.rng."""
+    jobs, seen = [], set()
+
+    def schemes(n):
+        return ("ccd", "csd", "knill") if n >= 2 else ("ccd", "csd")
+
+    def add(name, n, m, etype="c128", layout="C", call="pos", scheme="ccd", seed=None):
+        import numpy as np
+        if scheme == "knill" and n < 2:
+            return
+        if m > 0 and layout.startswith("1d"):
+            return
+        if call in ("default", "default-kw") and scheme != "ccd":
+            return
+        sd = ctx.rng.getrandbits(32) if seed is None else seed
+        v = div_data(name, n, m, sd)
+        if not div_castable(v, etype):
+            return
+        sig = (name, n, m, etype, layout, call, scheme)
+        if sig in seen:
+            return
+        seen.add(sig)
+        spec = {"name": name, "n": n, "m": m, "seed": sd, "etype": etype, "layout": layout, "call": call, "scheme": scheme,
+                "V": [[[float(z.real), float(z.imag)] for z in row] for row in np.asarray(v)]}
+        jobs.append(("div", spec))
+
+    def each_scheme(name, n, m, **kw):
+        sd = ctx.rng.getrandbits(32)
+        for s in schemes(n):
+            add(name, n, m, scheme=s, seed=sd, **kw)
+
+    pick = ctx.rng.choice
+    # ---- E1: integer-valued data in every element type (full cross for n <= 2, the dtype forms for n = 3, 4)
+    for n, m in DIV_SHAPES + DIV_SHAPES4:
+        ets = ["i64", "f64", "f64-negzero", "c128-negzero", "f32", "c64"]
+        if n <= 2:
+            ets += ["c128", "pylist-int", "pylist", "pytuple", "list-npscalars", "pylist-float"] + (["matrix"] if n == 2 else [])
+        elif n == 4:
+            ets = ["i64", "f64", "c64"]
+        for et in ets:
+            each_scheme("pm1_monomial", n, m, etype=et)
+        for et in (["i64"] if n >= 3 else ["i64", "f32", "c128-negzero"]):
+            each_scheme("id_cols", n, m, etype=et)
+        for et in (["c64"] if n >= 3 else ["c128", "c64", "pylist"]):
+            each_scheme("pmi_monomial", n, m, etype=et)
+        if m == 0 and n <= 3:
+            for k in ("0", "1", "last"):
+                for j, et in enumerate(("pylist-int", "pytuple", "list-npscalars", "i64", "f32", "f64", "c64", "c128")):
+                    if et in DIV_LIST_ETYPES:
+                        if k == "1":
+                            each_scheme(f"basis@{k}", n, 0, etype=et, layout=("1d", "col")[(j + n) % 2])
+                    elif k != "0" or et == "i64":
+                        each_scheme(f"basis@{k}", n, 0, etype=et, layout=("1d", "col")[(j + n + (k == "1")) % 2])
+    ctx.count("diversity:E1-integer-valued-x-element-type")
+    # ---- E2: REAL dtype (float64) inputs of the in-place sweep, exactly representable float32 where possible
+    for n, m in DIV_SHAPES + DIV_SHAPES4:
+        for name in ("real_haar", "hadamard_pm_half", "neg_hadamard", "real_rot", "real_neg_state"):
+            if name == "hadamard_pm_half" and n == 1:
+                continue
+            if n == 4 and name not in ("real_haar", "hadamard_pm_half"):
+                continue
+            each_scheme(name, n, m, etype="f64", layout="1d" if m == 0 and name in ("real_rot", "real_neg_state") else "C")
+            if name == "hadamard_pm_half" and n <= 3:
+                each_scheme(name, n, m, etype=("f32", "c64")[(n + m) % 2])
+    ctx.count("diversity:E2-real-dtype")
+    # ---- E3: inexact reduced precision (documented ValueError, or correct for the up-cast input to 1e-5)
+    for n, m in DIV_SHAPES:
+        each_scheme("real_haar", n, m, etype="f32", layout="1d" if m == 0 and ctx.rng.random() < 0.5 else "C")
+        each_scheme("haar", n, m, etype="c64", layout="1d" if m == 0 and ctx.rng.random() < 0.5 else "C")
+    ctx.count("diversity:E3-inexact-float32-complex64")
+    # ---- E4: forms decompose() does not claim to support on generic data (sequence types, np.matrix, row vector)
+    for n, m in [(1, 0), (2, 0), (2, 2), (3, 1)]:
+        for et in ("pylist", "pytuple", "list-npscalars"):
+            each_scheme("haar", n, m, etype=et, layout="1d" if m == 0 else "C")
+        each_scheme("real_haar", n, m, etype="pylist-float", layout="1d" if m == 0 else "C")
+        if m == 0:
+            each_scheme("haar", n, 0, layout="row")
+            each_scheme("real_haar", n, 0, etype="f64", layout="row")
+        if n == 2:
+            each_scheme("haar", n, m, etype="matrix")
+    ctx.count("diversity:E4-unsupported-forms")
+    # ---- S: scale structure (every family at every other shape: each sees m = 0, 0 < m < n and m = n over n = 1, 2, 3)
+    scale = ["light_tail@start@0.001", "light_tail@end@1e-06", "light_tail@mixed@0.0001", "light_tail@start@1e-05",
+             "light_tail@end@0.001", "light_tail@mixed@1e-06", "equal_moduli", "equal_moduli_pm1i", "repeated_values",
+             "single_one@0", "single_one@last", "single_one@mid", "phase_monomial", "sparse_pairs", "upper_half_zero",
+             "lower_half_zero", "disjoint_support", "repeated_eig@pairs", "repeated_eig@ones", "repeated_eig@all_same",
+             "light_tail_real@start@0.0001", "light_tail_real@end@1e-06", "light_tail_real@mixed@0.001"]
+    off = ctx.rng.randrange(2)
+    for i, (n, m) in enumerate(DIV_SHAPES):
+        for j, name in enumerate(scale):
+            if name.startswith("repeated_eig"):
+                if m != n:
+                    continue
+            elif (i + j + off) % 2:
+                continue
+            if name.endswith("_half_zero") and n == 1 and m == 0:
+                name = "basis@" + ("1" if name.startswith("upper") else "0")
+            each_scheme(name, n, m, etype="f64" if name.startswith("light_tail_real") else "c128",
+                        layout="1d" if m == 0 and ctx.rng.random() < 0.5 else "C")
+    ctx.count("diversity:S-scale-structure")
+    # ---- P: sign / phase structure (same rotation)
+    phase = [("real_neg_state", "c128"), ("real_neg_state", "f64"), ("pure_imag", "c128"), ("gphase@-1@haar", "c128"),
+             ("gphase@i@haar", "c128"), ("gphase@-i@haar", "c128"), ("gphase@-1@real_haar", "f64"), ("gphase@i@real_haar", "c128"),
+             ("gphase@-1@id_cols", "i64"), ("gphase@i@id_cols", "c128"), ("gphase@-i@id_cols", "c64"), ("entry_phases", "c128"),
+             ("first_neg", "c128"), ("gphase@-1@sparse_pairs", "c128-negzero"), ("disjoint_support", "c128-negzero"),
+             ("gphase@-1@id_cols", "f64-negzero")]
+    off = ctx.rng.randrange(2)
+    for i, (n, m) in enumerate(DIV_SHAPES):
+        for j, (name, et) in enumerate(phase):
+            if (i + j + off) % 2 == 0:
+                each_scheme(name, n, m, etype=et, layout="1d" if m == 0 and ctx.rng.random() < 0.5 else "C")
+    ctx.count("diversity:P-sign-phase-structure")
+    # ---- C: call forms and memory layouts (one at a time, then combined)
+    datas = [("haar", "c128"), ("real_haar", "f64"), ("pm1_monomial", "i64"), ("hadamard_pm_half", "f64"), ("sparse_pairs", "c128")]
+    lay2 = ["F", "T-view", "slice-view", "offset-view", "readonly"]
+    lay1 = ["1d", "1d-strided", "1d-readonly", "col"]
+    calls = ["kw", "default", "default-kw", "twice", "inverse", "host-to_gate-int", "host-to_instruction-qubitobj", "host-compose"]
+    for n, m in [(1, 0), (1, 1), (2, 0), (2, 1), (2, 2), (3, 0), (3, 1), (3, 3), (4, 1)]:
+        ok_data = [d for d in datas if not (d[0] == "hadamard_pm_half" and n == 1)]
+        r0 = ctx.rng.randrange(60)
+        for k, lay in enumerate(lay2 + (lay1 if m == 0 else [])):
+            for d in ([ok_data[(k + r0) % len(ok_data)], ok_data[(k + r0 + 1) % 3]] if n <= 3 else [ok_data[(k + r0) % 3]]):
+                each_scheme(d[0], n, m, etype=d[1], layout=lay)
+        if n == 4:
+            continue
+        for k, call in enumerate(calls):
+            for d in ([ok_data[(k + r0) % 3], ok_data[(k + r0 + 1) % len(ok_data)]] if n <= 2 else [ok_data[(k + r0) % 3]]):
+                each_scheme(d[0], n, m, etype=d[1], call=call)
+        for lay, call in (("F", "twice"), ("slice-view", "host-to_gate-int"), ("readonly", "inverse"), ("T-view", "kw"),
+                          ("offset-view", "twice"), ("readonly", "default")):
+            d = pick(ok_data)
+            if m == 0 and ctx.rng.random() < 0.5:
+                lay = {"F": "1d-strided", "readonly": "1d-readonly", "offset-view": "1d-strided"}.get(lay, "1d")
+            each_scheme(d[0], n, m, etype=d[1], layout=lay, call=call)
+    ctx.count("diversity:C-call-forms-and-layouts")
+    # ---- Z: every data family once at n = 4 (m = 1 or 3), where the iso-mode sites of the csd recursion interact
+    every = scale + [p[0] for p in phase] + ["real_rot", "neg_hadamard", "haar"]
+    for k, name in enumerate(dict.fromkeys(every)):
+        n, m = DIV_SHAPES4[k % 2]
+        sd = ctx.rng.getrandbits(32)
+        add(name, n, m, scheme="csd", seed=sd)
+        et = "f64" if k % 3 == 0 and div_castable(div_data(name, n, m, sd), "f64") else "c128"
+        add(name, n, m, scheme=("ccd", "knill")[(k // 2) % 2], seed=sd, etype=et)
+    ctx.count("diversity:Z-n=4-once-per-family")
+    return jobs
+
+
+def diversity_tie(ctx):
+    """Converted inputs through the existing op builders of the Lean driver: (n, m) schedule of the real `_ccd` run, the Lemma-2
+    blocks the run computed (structured pairs: exact zeros, negative reals, +-i, -0.0), Knill's retained-eigenvalue skeleton."""
+    import numpy as np
+    cases = [(1, 1, "neg_hadamard", "f64", "readonly"), (2, 1, "pm1_monomial", "i64", "C"), (2, 2, "hadamard_pm_half", "f64", "F"),
+             (2, 0, "light_tail@end@1e-06", "c128", "1d"), (3, 0, "basis@last", "i64", "1d"), (3, 1, "sparse_pairs", "c128", "T-view"),
+             (3, 2, "real_haar", "f64", "slice-view"), (3, 2, "disjoint_support", "c128-negzero", "C"),
+             (3, 3, "pmi_monomial", "c64", "offset-view"), (3, 3, "repeated_eig@ones", "c128", "C"),
+             (4, 1, "upper_half_zero", "c128", "C"), (4, 3, "real_rot", "f64", "F")]
+    for n, m, name, et, lay in cases:
+        seed = ctx.rng.getrandbits(32)
+        v = div_data(name, n, m, seed)
+        spec = {"name": name, "n": n, "m": m, "seed": seed, "etype": et, "layout": lay, "call": "pos", "scheme": "ccd", "V": None}
+        tag = f"{name}:{et}:{lay}"
+        try:
+            arg, _, _ = div_arg(v, et, lay)
+            lines, lemma2 = ccd_impl_lines(n, m, seed, arg=arg)
+        except Exception as e:  # noqa: BLE001
+            ctx.fail(f"decompose-raises:ccd:n={n}:m={m}:{div_fam(spec)}", f"qclib raised on a valid isometry: {type(e).__name__}: {e}",
+                     div_replay(("div", spec)))
+            continue
+        ctx.tie({"op": "ccd", "n": n, "m": m}, lines, label=f"ccd schedule n={n} m={m} diversity {tag}")
+        ctx.count("diversity:tie:ccd-schedule")
+        structured = [r for r in lemma2 if r[1] == 0 or r[2] == 0 or r[1].imag == 0 or r[2].imag == 0 or r[1].real == 0 or r[2].real == 0]
+        ctx.rng.shuffle(structured)
+        for _, a, b, basis, out in (structured or lemma2)[:5]:
+            flat = [x for z in out.ravel() for x in (float(z.real), float(z.imag))]
+            ctx.tie({"op": "lemma2", "are": a.real, "aim": a.imag, "bre": b.real, "bim": b.imag, "basis": basis},
+                    ["lemma2 ; " + " ".join(repr(x) for x in flat)], label=f"lemma2 a={a} b={b} basis={basis} diversity {tag}")
+            ctx.count("diversity:tie:lemma2-structured")
+        if n < 2:
+            continue
+        rec = []
+        spec = dict(spec, scheme="knill")
+        try:
+            arg, _, _ = div_arg(v, et, lay)
+            with instrumented(rec) as q:
+                circ = q.decompose(arg, "knill")
+        except Exception as e:  # noqa: BLE001
+            ctx.fail(f"decompose-raises:knill:n={n}:m={m}:{div_fam(spec)}", f"qclib raised on a valid isometry: {type(e).__name__}: {e}",
+                     div_replay(("div", spec)))
+            continue
+        args, lines = knill_skeleton(circ, rec, n)
+        ctx.tie({"op": "knill", "n": n, "args": args}, lines, label=f"knill n={n} m={m} diversity {tag}")
+        ctx.count(f"diversity:tie:knill-skeleton:kept{sum(1 for x in args if abs(x) > 1e-7)}of{len(args)}")
+
+
+def judge_any(ctx, job, res):
+    (judge_div if job[0] == "div" else judge)(ctx, job, res)
+
+
 def run(ctx):
     run_tie(ctx)
     probe_fixed(ctx)
     probe_call_forms(ctx)
-    jobs = oracle_jobs(ctx, 5 if ctx.quick else 6, 2 if ctx.quick else 3) + boundary_jobs(ctx)
+    diversity_tie(ctx)
+    jobs = oracle_jobs(ctx, 5 if ctx.quick else 6, 2 if ctx.quick else 3) + boundary_jobs(ctx) + diversity_jobs(ctx)
     for job, res in zip(jobs, run_jobs(jobs)):
-        judge(ctx, job, res)
+        judge_any(ctx, job, res)
     flush_deferred(ctx)
     ctx.notes.append("Knill is exercised for n>=2 only (the code rejects n=1); tolerances: operator 1e-7, kernel specs 1e-8")
+    ctx.notes.append("input diversity: Python lists / tuples / lists of numpy scalars, np.matrix (ccd) and (1, 2^n) row vectors are not "
+                     "accepted by decompose() (`isometry.astype`, annotation np.ndarray): counted as diversity:*:unsupported-form-raises-*; "
+                     "inexact float32 / complex64 matrices are rejected with the documented ValueError (np.allclose atol 1e-8) or evaluated "
+                     "at 1e-5; light tails >= 1e-6; caller's array compared byte for byte after every call")
     ctx.notes.append("boundary families: eigphase@phi (eigenphases 3e-8 / 3e-7 / 1e-6 around Knill's 1e-7 cut, m = n), tiny_rows@e (pairs "
                      "handed to Lemma 2 tiny but not zero), allclose@delta (sibling blocks 3e-9 / 3e-5 apart: either side of the np.allclose "
                      "merge of qiskit's UCGate._simplify; 3e-6 apart is the known merge, keys isometry-allclose-merge:*), and C02's "
@@ -704,14 +1412,19 @@ def run(ctx):
 
 def search(ctx, hints):
     probe_fixed(ctx)
-    jobs = oracle_jobs(ctx, 5, 2)
+    jobs = diversity_jobs(ctx) + oracle_jobs(ctx, 5, 2)
     for job, res in zip(jobs, run_jobs(jobs)):
-        judge(ctx, job, res)
+        judge_any(ctx, job, res)
     flush_deferred(ctx)
 
 
 def replay(ctx, payload):
     r = payload["replay"]
+    if r.get("div"):
+        job = ("div", r["spec"])
+        judge_div(ctx, job, run_div(job))
+        flush_deferred(ctx)
+        return
     if r.get("form"):
         probe_call_forms(ctx)
         return
